@@ -71,8 +71,8 @@ pub fn load_findings(path: &str) -> Vec<Finding> {
     }
 }
 
-/// Coverage accumulator; merged across worker threads.
-#[derive(Default, Clone)]
+/// Coverage accumulator; merged across worker threads and shard processes.
+#[derive(Default, Clone, Serialize, Deserialize)]
 pub struct Cov {
     pub states: u64,
     pub transitions: u64,
@@ -152,6 +152,7 @@ impl Cov {
     }
 }
 
+#[derive(Serialize, Deserialize)]
 pub struct Outcome {
     pub cov: Cov,
     pub violations: Vec<Violation>,
@@ -167,9 +168,10 @@ impl Outcome {
     }
 }
 
+#[derive(Serialize, Deserialize, Clone)]
 pub struct CheckMeta {
-    pub property: &'static str,
-    pub level: &'static str,
+    pub property: String,
+    pub level: String,
     pub rule: String,
     pub assumptions: Vec<String>,
 }
